@@ -446,7 +446,7 @@ def relabel(y):
     return [u.index(v) for v in y]
 
 
-def random_float_scenario(rng, kind="sup", metric="euclidean", n=None, nu=0, nq=4, lattice=False, positive=False, mode=None, dim=None, classes=None, copies=True):
+def random_float_scenario(rng, kind="sup", metric="euclidean", n=None, nu=0, nq=4, lattice=False, positive=False, mode=None, dim=None, classes=None, copies=True, sparse=False):
     """Float data scenario. lattice -> integer grid (many ties); positive -> strictly positive features."""
     np = _np()
     n = n or rng.choice([2, 2] + list(range(3, 13)) * 2)
@@ -472,6 +472,11 @@ def random_float_scenario(rng, kind="sup", metric="euclidean", n=None, nu=0, nq=
             Z[i] += centers[r.integers(0, len(centers))] * r.choice([0.0, 1.0, 1.0, 3.0])
     if positive:
         Z = np.abs(Z) + 0.25
+    if sparse:
+        # histogram-like data: non-negative with many exact zeros (in the domain of every ratio/log metric thanks to the
+        # library's EPSILON shift, and the data on which that shift matters)
+        Z = np.abs(Z)
+        Z[r.random(Z.shape) < 0.35] = 0.0
     # queries: some are copies of training rows (early-exit edge), some midpoints
     q0 = n + nu
     for j in range(nq if copies else 0):
@@ -508,6 +513,25 @@ def random_float_scenario(rng, kind="sup", metric="euclidean", n=None, nu=0, nq=
     return scn
 
 
+def extreme_unit_scenarios(rng, count, kind="sup", nq=2, nu=0):
+    """Dissimilarities in very small / very large units: features scaled by an exact power of two (2**-73, 2**-330, 2**60) under
+    the positively homogeneous metrics, half of them through a pre-computed matrix (every second of those scaled once more).
+    Weights that differ, differ - however small the difference is in absolute terms."""
+    np = _np()
+    out = []
+    for i in range(count):
+        scn = random_float_scenario(rng, kind=kind, metric=("euclidean", "manhattan", "chebyshev")[i % 3], n=rng.randrange(3, 11), nu=nu, nq=nq,
+                                    mode=("pre" if i % 2 else "metric"), classes=rng.choice([2, 3]), copies=False)
+        scale = (2.0 ** -73, 2.0 ** -330, 2.0 ** 60, 1e-22)[i % 4]
+        scn["Z"] = (np.array(scn["Z"]) * scale).tolist()
+        if not materialise_pre(scn):
+            continue
+        if scn["mode"] == "pre" and i % 4 == 1:
+            scn["D"] = (np.array(scn["D"]) * 2.0 ** -40).tolist()
+        out.append(scn)
+    return out
+
+
 def materialise_pre(scn):
     """For mode 'pre' float scenarios: compute the full matrix with the metric (harness side, copies)."""
     if scn["mode"] == "pre" and scn.get("D") is None:
@@ -537,6 +561,13 @@ SYM_METRICS_UNDECORATED = [
     "hamming",
 ]
 POSITIVE_METRICS = ["hellinger", "matusita", "squared_chord", "canberra", "soergel", "bray_curtis", "chi_squared", "clark", "squared", "jensen_shannon", "topsoe", "jeffreys", "kulczynski", "sangvi", "divergence", "additive_symmetric", "jaccard", "dice", "hassanat", "vicis_wave_hedges", "vicis_symmetric1", "vicis_symmetric2", "vicis_symmetric3", "max_symmetric", "min_symmetric", "mean_censored_euclidean"]
+
+
+# symmetric decorated (EPSILON-shifted) metrics whose value stays finite and bit-symmetric on vectors with exact zeros; the first
+# ones divide by a coordinate (their value at a zero coordinate is governed by the shift)
+ZERO_TOLERANT_METRICS = ["additive_symmetric", "max_symmetric", "min_symmetric", "vicis_symmetric1", "vicis_symmetric2", "vicis_wave_hedges",
+                         "vicis_symmetric3", "divergence", "chi_squared", "squared", "sangvi", "clark", "canberra", "topsoe", "jensen_shannon",
+                         "kulczynski", "soergel", "bray_curtis", "dice", "jaccard", "hassanat", "mean_censored_euclidean"]
 
 
 # ---------------------------------------------------------------------------------------------------
